@@ -263,6 +263,7 @@ type provider struct {
 	mu     sync.Mutex
 	max    int
 	table  map[string]outcome
+	fails  int
 	stepQ  []string
 	total  int
 	calls  int
@@ -340,10 +341,22 @@ func (p *provider) Instance(ctx context.Context, ips ...gostatsd.Source) (map[go
 		}
 	}
 	if failed {
-		if len(m) == 0 {
-			return nil, fmt.Errorf("scripted failure") // nil map: doLookup reads instances[ip] from it
+		// the provider's own failures come in the kinds an SDK produces: plain, its own request time-out (which is a
+		// context.DeadlineExceeded although the cache's context is alive), its own cancellation
+		p.fails++
+		var cause error
+		switch p.fails % 3 {
+		case 1:
+			cause = context.DeadlineExceeded
+		case 2:
+			cause = context.Canceled
+		default:
+			cause = fmt.Errorf("connection reset")
 		}
-		return m, fmt.Errorf("scripted partial failure")
+		if len(m) == 0 {
+			return nil, fmt.Errorf("scripted failure: %w", cause) // nil map: doLookup reads instances[ip] from it
+		}
+		return m, fmt.Errorf("scripted partial failure: %w", cause)
 	}
 	return m, nil
 }
